@@ -81,7 +81,7 @@ func (p *Prog) Discs() []*Disc {
 	}
 	by := map[*types.Named]*Disc{}
 	for _, e := range p.GoEntries() {
-		if e.Recv == nil {
+		if e.Recv == nil || e.Entry == nil || !p.IsProduct(e.Entry) {
 			continue
 		}
 		d := by[e.Recv]
